@@ -262,7 +262,9 @@ pub fn run(ctx: &Ctx) -> Outcome {
         rep.finish()
     });
     // ---- (5) panic sweep: every front-end x every length x every call form, plus counters and states
-    let sweep_units: Vec<&Cfg> = cfgs.clone();
+    // the very wide backends (set 'w') join with a light sweep: lengths around one and two full batches only
+    let mut sweep_units: Vec<&Cfg> = cfgs.clone();
+    sweep_units.extend(ctx.reg.cfgs.iter().filter(|c| c.sets.contains('w')));
     let r2 = par_map(&sweep_units, |cfg| {
         let mut rep = Report::new(format!("{}/panic-sweep", cfg.name));
         let bs = cfg.bs;
@@ -271,7 +273,8 @@ pub fn run(ctx: &Ctx) -> Outcome {
         let lmax = if cfg.sets.contains('s') { 2 * bs + 1 } else { tier.pick((par + 2) * bs + 1, (2 * par + 2) * bs + 1).max(3 * bs + 2) };
         let data = pattern(seed, 0xC13F, lmax.max((2 * par + 1) * bs) + 2 * bs);
         let pre = dirty(lmax.max((2 * par + 1) * bs) + 2 * bs);
-        let lens: Vec<usize> = if bs <= 32 { (0..=lmax).collect() } else { byte_lengths(bs, lmax) };
+        let wide = cfg.sets.contains('w');
+        let lens: Vec<usize> = if wide { vec![0, 1, bs, par * bs - 1, par * bs, par * bs + 1, (par + 1) * bs + 3, 2 * par * bs, (2 * par + 1) * bs] } else if bs <= 32 { (0..=lmax).collect() } else { byte_lengths(bs, lmax) };
         let fams = ["cbc", "pcbc", "ige", "cfb", "cfb8", "ofb", "ctr32be", "ctr32le", "ctr64be", "ctr64le", "ctr128be", "ctr128le", "belt"];
         for fam in fams {
             for dir in [Dir::Enc, Dir::Dec] {
